@@ -21,6 +21,17 @@
 // run >= 8 times in-process and >= 8 times through the binary; bytes, exit status and the NUMBER
 // of diagnostics are compared with a GOMAXPROCS=1 reference and with the harness's bookkeeping
 // of what it planted.  `--only 2000000+k [keep]` runs family member k alone.
+//
+// Parts B-filter / E-filter (filterfam.go, `--only 3000000+k`), B-overlap / E-overlap (overlap.go,
+// `--only 4000000+k`), A-wait (wait.go, `await [k]`), E-cycles (cycles.go).
+//
+// Parts B-multifail / E-multifail (multifail.go): workspaces in which the module-dependency
+// traversal fails in SEVERAL dependencies at once, under permuted storage walks, module orders and
+// query orders; `--only 5000000+k [keep]` runs member k alone, `multifail` the family alone.
+//
+// Part B-mclient (multiclient.go): lint / breaking over SEVERAL check clients of which some fail,
+// under forced completion orders and parallelism 1..16; `--only 6000000+k` runs member k alone,
+// `mclient` the part alone.
 package main
 
 import (
@@ -490,7 +501,7 @@ func outputs(ws workspace, v variation) (out map[string]string) {
 }
 
 func partB(run *hx.Run, r *hx.Rand) {
-	n := run.N(25, 240) // thorough re-budgeted (was 400) when the filter and overlap families were added
+	n := run.N(25, 215) // thorough re-budgeted (400 -> 240 when the filter and overlap families were added, -> 215 with the multi-failure and multi-client families)
 	for i := 0; i < n; i++ {
 		cr := r.Fork(uint64(i))
 		ws := genWorkspace(cr, i)
@@ -978,6 +989,21 @@ func main() {
 		run.Finish()
 		return
 	}
+	if run.Only >= mclientOnlyBase || (len(run.Args) > 0 && run.Args[0] == "mclient") {
+		// one member of the multi-client family alone (`mclient`: the whole part alone)
+		timed("B-mclient", func() { partBMClient(run, r.Fork(12)) })
+		run.Finish()
+		return
+	}
+	if run.Only >= multifailOnlyBase || (len(run.Args) > 0 && run.Args[0] == "multifail") {
+		// one member of the multi-failure family alone (`multifail`: the whole family alone)
+		timed("B-multifail", func() { partBMultiFail(run, r.Fork(11)) })
+		if bufBin, ok := buildBuf(run, tmpRoot); ok {
+			timed("E-multifail", func() { partEMultiFail(run, r.Fork(11), tmpRoot, bufBin) })
+		}
+		run.Finish()
+		return
+	}
 	if run.Only >= overlapOnlyBase {
 		// one member of the overlap family alone
 		partBOverlap(run, r.Fork(9))
@@ -1012,6 +1038,8 @@ func main() {
 		timed("B-many", func() { partBMany(run, r.Fork(6)) })
 		timed("B-filter", func() { partBFilter(run, r.Fork(10)) })
 		timed("B-overlap", func() { partBOverlap(run, r.Fork(9)) })
+		timed("B-multifail", func() { partBMultiFail(run, r.Fork(11)) })
+		timed("B-mclient", func() { partBMClient(run, r.Fork(12)) })
 		timed("D", func() { partD(run, r.Fork(4)) })
 		var bufBin string
 		var ok bool
@@ -1023,6 +1051,7 @@ func main() {
 			timed("E-filter", func() { partEFilter(run, r.Fork(10), tmpRoot, bufBin) })
 			timed("E-overlap", func() { partEOverlap(run, r.Fork(9), tmpRoot, bufBin) })
 			timed("E-cycles", func() { partECycles(run, r.Fork(8), tmpRoot, bufBin) })
+			timed("E-multifail", func() { partEMultiFail(run, r.Fork(11), tmpRoot, bufBin) })
 		}
 	} else {
 		partB(run, r.Fork(2))
